@@ -200,17 +200,17 @@ def r7_attrs(text):
 
 
 def r10_iter_idioms(text):
-    """X.iter().any(c) / .all(c) / .position(c) -> verif_any(&X, c) ...  where X is a
-    simple place expression (identifiers, field accesses, `self`)."""
+    """X.iter().any(c) / .all(c) -> verif_any(&X, c) / verif_all(&X, c) where X is a place
+    expression (identifiers and field accesses, possibly spread over several lines)."""
     cnt = 0
     while True:
         m, _ = mask(text)
-        mo = re.search(r'((?:&?\*?[A-Za-z_]\w*)(?:\.\w+)*)\.iter\(\)\s*\.\s*(any|all|position)\s*\(', m)
+        mo = re.search(r'((?:[A-Za-z_]\w*)(?:\s*\.\s*\w+)*?)\s*\.\s*iter\(\)\s*\.\s*(any|all)\s*\(', m)
         if not mo:
             break
         op = mo.end() - 1
         cl = match_close(m, op)
-        recv = mo.group(1)
+        recv = re.sub(r'\s+', '', mo.group(1))
         arg = text[op + 1:cl]
         text = text[:mo.start()] + 'verif_%s(&%s, %s)' % (mo.group(2), recv, arg.strip()) + text[cl + 1:]
         cnt += 1
